@@ -13,7 +13,7 @@ import z3
 
 from . import solve
 from .sym import *  # noqa: F401,F403
-from .sym import (EngineUnsupported, VInt, VBool, VStr, VNone, VSeq, VTuple, VRec, VOpt, VRef, VFunc, VClass,
+from .sym import (EngineUnsupported, VInt, VBool, VStr, VNone, VSeq, VTuple, VRec, VOpt, VRef, VFunc, VClass, VMap, TMap,
                   VBuiltin, VPy, Val, ListCell, DictCell, ObjCell, IterCell, TInt, TBool, TStr, TSeq, TOpt, TTuple,
                   TRec, Ty, T_INT, T_BOOL, T_STR, STR, INT, BOOL, mk_str, ival, fresh, fresh_val, to_term,
                   from_term, ty_of_val, new_loc, concrete_str, is_space)
@@ -175,7 +175,7 @@ class Executor:
                     return z3.BoolVal(True)
                 return z3.Or(*pres) if pres else z3.BoolVal(False)
             return z3.BoolVal(True)
-        if isinstance(v, (VFunc, VClass, VBuiltin)):
+        if isinstance(v, (VFunc, VClass, VBuiltin, VPy)):
             return z3.BoolVal(True)
         raise EngineUnsupported(f"truth of {v!r}")
 
@@ -459,9 +459,21 @@ class Executor:
         raise EngineUnsupported("dict key is not a constant string")
 
     def ev_IfExp(self, st, e):
+        narrow = self.none_test(st, e.test)
+
         def k(s, c):
             out = []
             for s2, b in self.branch(s, self.truth(s, c)):
+                if narrow is not None:
+                    name, none_when_true = narrow
+                    v = s2.env.get(name)
+                    if isinstance(v, VOpt):
+                        saved = v
+                        s2.env[name] = VNone if (b == none_when_true) else from_term(v.ty.val(v.t), v.ty.elem)
+                        for s3, r in self.eval(s2, e.body if b else e.orelse):
+                            s3.env[name] = saved
+                            out.append((s3, r))
+                        continue
                 out.extend(self.eval(s2, e.body if b else e.orelse))
             return out
         return self.bind(self.eval(st, e.test), k)
@@ -737,6 +749,9 @@ class Executor:
 
     def index(self, st, base, idx, node=None):
         ln = getattr(node, "lineno", 0)
+        if isinstance(base, VMap):
+            k = to_term(self.freeze(st, idx, base.ty.keyt), base.ty.keyt)
+            return [(st, from_term(z3.Select(base.t, k), base.ty.val))]
         # dict / record access
         if isinstance(base, VRec):
             k = self.concrete_key(idx)
